@@ -145,11 +145,11 @@ func RefGetpath(v any, path []any) (any, error) {
 			}
 			if sub, isArr := k.([]any); isArr {
 				// an array indexed by an array: the positions where it occurs as a sub-array (null for the empty one)
+				pos := []any{}
 				if len(sub) == 0 {
-					v = nil
+					v = pos // `.[[]]` is the empty list of positions in jq and gojq alike (the builtin indices([]) is null)
 					continue
 				}
-				pos := []any{}
 				for i := 0; i+len(sub) <= len(c); i++ {
 					if univ.Equal(any(c[i:i+len(sub)]), any(sub)) {
 						pos = append(pos, i)
@@ -314,6 +314,11 @@ func markDelete(n *delNode, v any, path []any, offset int) error {
 		return nil
 	}
 	if v == nil {
+		// nothing to delete below null; an object that is not a slice key is still not a path element (jq 1.6 lets it
+		// pass on null and refuses it elsewhere; the model refuses it everywhere, as setpath does)
+		if _, isSlice, err := asSlice(path[0]); isSlice && err != nil {
+			return err
+		}
 		return nil
 	}
 	k := path[0]
